@@ -1,6 +1,7 @@
 package rules
 
 import (
+	"go/constant"
 	"fmt"
 	"go/token"
 	"sort"
@@ -17,7 +18,7 @@ func c04lambda(c *core.Ctx, r *core.Reporter) {
 	const few = "C04.few"
 	const lam = "C04.lam"
 	r.Rule(few, "in (*Lambda).Call at least one condition-raising (no-return) site must be reachable when the argument list may be empty; if every raise site is reached only with len(args) >= 1, a call with too few arguments can never be rejected", 1)
-	r.Rule(lam, "the two passes of (*Lambda).Call over the lambda list (binding pass, defaults pass) compare the parameter name against the same set of &-marker constants", 1)
+	r.Rule(lam, "the two passes of (*Lambda).Call over the lambda list (binding pass, defaults pass) compare the parameter name against the same set of &-marker constants in every arm of the mode switch that both passes have (required, optional)", 1)
 	fnObj := c.LookupFunc("", "Lambda.Call")
 	if fnObj == nil {
 		r.Undecided(few, "slip.(Lambda).Call", "-", "anchor (*Lambda).Call does not resolve")
@@ -66,9 +67,14 @@ func c04lambda(c *core.Ctx, r *core.Reporter) {
 
 	c04keyscan(c, r, fn)
 
-	// C04.lam: marker constants compared per top-level loop
+	// C04.lam: marker constants compared per top-level loop and per arm of the mode switch
 	loops := core.Loops(fn)
-	sets := map[*core.Loop]map[string]bool{}
+	type armKey struct {
+		top *core.Loop
+		arm string
+	}
+	sets := map[armKey]map[string]bool{}
+	topSet := map[*core.Loop]bool{}
 	for _, b := range fn.Blocks {
 		l := core.InnermostLoop(loops, b)
 		if l == nil {
@@ -82,16 +88,18 @@ func c04lambda(c *core.Ctx, r *core.Reporter) {
 			}
 			for _, op := range []ssa.Value{bo.X, bo.Y} {
 				if s, ok := core.StringConst(op); ok && strings.HasPrefix(s, "&") {
-					if sets[top] == nil {
-						sets[top] = map[string]bool{}
+					k := armKey{top, modeArmOf(b)}
+					if sets[k] == nil {
+						sets[k] = map[string]bool{}
 					}
-					sets[top][s] = true
+					sets[k][s] = true
+					topSet[top] = true
 				}
 			}
 		}
 	}
 	var tops []*core.Loop
-	for l := range sets {
+	for l := range topSet {
 		tops = append(tops, l)
 	}
 	sort.Slice(tops, func(i, j int) bool { return tops[i].Header.Index < tops[j].Header.Index })
@@ -99,15 +107,56 @@ func c04lambda(c *core.Ctx, r *core.Reporter) {
 		r.Undecided(lam, "slip.(Lambda).Call", c.Pos(fn.Pos()), fmt.Sprintf("expected two passes comparing &-markers, found %d", len(tops)))
 		return
 	}
-	ref := keys(sets[tops[0]])
-	for i, l := range tops[1:] {
-		got := keys(sets[l])
-		r.Decide(strings.Join(ref, " ") == strings.Join(got, " "), lam, fmt.Sprintf("slip.(Lambda).Call|pass%d", i+2), c.Pos(l.Header.Instrs[0].Pos()),
-			fmt.Sprintf("binding pass handles {%s}, pass %d handles {%s}", strings.Join(ref, " "), i+2, strings.Join(got, " ")))
+	// arms (values of the mode variable) in which both passes walk the lambda list descriptor by descriptor
+	arms := map[string]bool{}
+	for k := range sets {
+		arms[k.arm] = true
+	}
+	compared := 0
+	for _, arm := range keys(arms) {
+		ref, ok := sets[armKey{tops[0], arm}]
+		if !ok {
+			continue
+		}
+		for i, l := range tops[1:] {
+			got, ok := sets[armKey{l, arm}]
+			if !ok {
+				continue
+			}
+			compared++
+			rs, gs := keys(ref), keys(got)
+			r.Decide(strings.Join(rs, " ") == strings.Join(gs, " "), lam, fmt.Sprintf("slip.(Lambda).Call|pass%d|mode %s", i+2, arm), c.Pos(l.Header.Instrs[0].Pos()),
+				fmt.Sprintf("in mode %s the binding pass handles {%s}, pass %d handles {%s}", arm, strings.Join(rs, " "), i+2, strings.Join(gs, " ")))
+		}
+	}
+	if compared < 2 {
+		r.Undecided(lam, "slip.(Lambda).Call|arms", c.Pos(fn.Pos()), fmt.Sprintf("expected the required and optional arms of both passes to compare &-markers, found %d comparable arms", compared))
 	}
 }
 
-func keys(m map[string]bool) []string {
+// modeArmOf names the arm of the mode switch a block belongs to: the integer constant of the nearest
+// dominating `mode == k` test taken on its true edge ("-" when there is none).
+func modeArmOf(b *ssa.BasicBlock) string {
+	for cur := b; cur.Idom() != nil; cur = cur.Idom() {
+		d := cur.Idom()
+		ifi, ok := d.Instrs[len(d.Instrs)-1].(*ssa.If)
+		if !ok || len(d.Succs) != 2 || d.Succs[0] != cur || d.Succs[1] == cur {
+			continue
+		}
+		bo, ok := ifi.Cond.(*ssa.BinOp)
+		if !ok || bo.Op != token.EQL {
+			continue
+		}
+		for _, op := range []ssa.Value{bo.X, bo.Y} {
+			if k, ok := op.(*ssa.Const); ok && k.Value != nil && k.Value.Kind() == constant.Int {
+				return k.Value.ExactString()
+			}
+		}
+	}
+	return "-"
+}
+
+func keys[V any](m map[string]V) []string {
 	var out []string
 	for k := range m {
 		out = append(out, k)
